@@ -76,6 +76,7 @@ MUTANTS = [
     ("C08", "detect", "specs/openapi/_cache.py", "        self._traversal_key_to_operation[traversal_key] = idx\n", "        self._traversal_key_to_operation = {traversal_key: idx}\n", "insert drops the other traversal keys"),
     ("C08", "detect", "specs/openapi/schemas.py", "                        statistic.operations.total += 1\n                        is_selected = not should_skip(path, method, definition)", "                        is_selected = not should_skip(path, method, definition)\n                        if is_selected:\n                            statistic.operations.total += 1", "total counts only the selected operations"),
     ("C08", "detect", "specs/openapi/schemas.py", "                    for method, entry in path_item.items():\n                        if method not in HTTP_METHODS:\n                            continue\n                        try:\n                            resolved = resolve_operation(entry)", "                    for method, entry in path_item.items():\n                        if method not in HTTP_METHODS:\n                            break\n                        try:\n                            resolved = resolve_operation(entry)", "a non-method key ends the enumeration of the path item"),
+    ("C08", "detect", "specs/openapi/schemas.py", "        parameters = schema._collect_operation_parameters(self._path_item, resolved)\n        initialized = schema.make_operation(path, method, parameters, operation, resolved, scope)\n        cache.insert_operation(initialized, traversal_key=traversal_key, operation_id=resolved.get(\"operationId\"))", "        parameters = schema._collect_operation_parameters(self._path_item, resolved)\n        initialized = schema.make_operation(path, method, parameters, operation, resolved, scope)\n        cache.insert_operation(initialized, traversal_key=(scope, path, method.upper()), operation_id=resolved.get(\"operationId\"))", "operation cached under a different key than it is looked up with"),
     # ---- C09
     ("C09", "detect", "core/curl.py", "    if not verify:", "    if verify:", "--insecure inverted"),
     ("C09", "detect", "core/curl.py", "if key not in known_generated_headers and key in get_excluded_headers():", "if key in get_excluded_headers():", "generated headers dropped from the command"),
